@@ -6,7 +6,8 @@ import ast
 
 from ..core import rule
 from ..dataflow import DefUse
-from ..program import AnalysisError, dotted, src, walk_local
+from ..program import AnalysisError, dotted, src
+from ..core import walk_local  # inline-aware
 from .common import unwrap_await, where
 from .storelib import facts
 
